@@ -1,7 +1,11 @@
 /-
   C14 — Occlusion/mismatch filling touches only flagged pixels, fills from valid ones.
 -/
-import PandoraModel.Model.Interp
+import PandoraModel.Lemmas.InterpFlags
+import PandoraModel.Lemmas.InterpScan
+import PandoraModel.Lemmas.InterpSort
+import PandoraModel.Lemmas.InterpOccl
+import PandoraModel.Lemmas.InterpCongr
 import PandoraModel.Generated.Interp
 import PandoraModel.Generated.Constants
 
@@ -52,5 +56,646 @@ theorem source_constants :
     ∧ Generated.Constants.PANDORA_MSK_PIXEL_FILLED_OCCLUSION = filledOcclusion
     ∧ Generated.Constants.PANDORA_MSK_PIXEL_FILLED_MISMATCH = filledMismatch
     ∧ Generated.Constants.PANDORA_MSK_PIXEL_LEFT_NODATA_OR_BORDER = leftNodataOrBorder := by decide
+
+
+/-! ### 2. Well-formed inputs, as propositions -/
+
+theorem allPx_iff (a : DMap) (p : Nat → Nat → Bool) :
+    allPx a p = true ↔ ∀ r c, r < a.rows → c < a.cols → p r c = true := by
+  simp only [allPx, List.all_eq_true, List.mem_range]
+  constructor
+  · intro h r c hr hc; exact h r hr c hc
+  · intro h r hr c hc; exact h r c hr hc
+
+/-- what `wf meth off a = true` says, pixel by pixel (all pixels inside the image) -/
+structure WFp (meth : Method) (off : Nat) (a : DMap) : Prop where
+  vf : ∀ r c, r < a.rows → c < a.cols → a.valid r c = true → ∃ q, a.disp r c = .num q
+  one : ∀ r c, r < a.rows → c < a.cols → (a.flag r c).testBit 8 = true → (a.flag r c).testBit 9 = false
+  st8 : ∀ r c, r < a.rows → c < a.cols → (a.flag r c).testBit 8 = true → (a.flag r c).testBit 4 = false
+  st9 : ∀ r c, r < a.rows → c < a.cols → (a.flag r c).testBit 9 = true → (a.flag r c).testBit 5 = false
+  st9s : meth = .sgm → ∀ r c, r < a.rows → c < a.cols → (a.flag r c).testBit 9 = true → (a.flag r c).testBit 4 = false
+  bc : ∀ r c, r < a.rows → c < a.cols → (decide (off > 0) && isBorder a off r c) = true → a.flag r c = leftNodataOrBorder
+
+theorem wf_elim {meth : Method} {off : Nat} {a : DMap} (h : wf meth off a = true) : WFp meth off a := by
+  unfold wf at h
+  simp only [Bool.and_eq_true] at h
+  obtain ⟨⟨⟨h1, h2⟩, h3⟩, h4⟩ := h
+  unfold validFinite at h1; unfold oneFlag at h2; unfold noStaleFill at h3; unfold borderClean at h4
+  rw [allPx_iff] at h1 h2 h3 h4
+  refine ⟨?_, ?_, ?_, ?_, ?_, ?_⟩
+  · intro r c hr hc hv
+    have := h1 r c hr hc
+    rw [hv] at this
+    cases hd : a.disp r c with
+    | nan => rw [hd] at this; simp [Val.isNum, Val.isNan] at this
+    | num q => exact ⟨q, rfl⟩
+  · intro r c hr hc h8
+    have := h2 r c hr hc
+    rw [occlusion_pow, mismatch_pow, hasBit_two_pow, hasBit_two_pow, h8] at this
+    simpa using this
+  · intro r c hr hc h8
+    have := h3 r c hr hc
+    simp only [occlusion_pow, mismatch_pow, filledOcclusion_pow, filledMismatch_pow, hasBit_two_pow, h8,
+      Bool.and_eq_true, Bool.or_eq_true, Bool.not_eq_true', Bool.false_or, Bool.not_true] at this
+    exact this.1.1
+  · intro r c hr hc h9
+    have := h3 r c hr hc
+    simp only [occlusion_pow, mismatch_pow, filledOcclusion_pow, filledMismatch_pow, hasBit_two_pow, h9,
+      Bool.and_eq_true, Bool.or_eq_true, Bool.not_eq_true', Bool.false_or, Bool.not_true] at this
+    exact this.1.2
+  · intro hm r c hr hc h9
+    have := h3 r c hr hc
+    simp only [occlusion_pow, mismatch_pow, filledOcclusion_pow, filledMismatch_pow, hasBit_two_pow, h9, hm,
+      Bool.and_eq_true, Bool.or_eq_true, Bool.not_eq_true', Bool.false_or, Bool.not_true, decide_true,
+      Bool.true_and] at this
+    exact this.2
+  · intro r c hr hc hb
+    have := h4 r c hr hc
+    rw [hb] at this
+    simpa using this
+
+
+/-! ### 3. "Between two valid disparities of the input map" -/
+
+/-- `q` lies between the disparities of two valid pixels of `a` -/
+def Bdd (a : DMap) (q : Rat) : Prop :=
+  (∃ r c v, r < a.rows ∧ c < a.cols ∧ a.valid r c = true ∧ a.disp r c = .num v ∧ v ≤ q) ∧
+  (∃ r c v, r < a.rows ∧ c < a.cols ∧ a.valid r c = true ∧ a.disp r c = .num v ∧ q ≤ v)
+
+theorem betweenValid_iff (a : DMap) (q : Rat) : betweenValid a q = true ↔ Bdd a q := by
+  unfold betweenValid Bdd
+  simp only [Bool.and_eq_true, List.any_eq_true, List.mem_range]
+  constructor
+  · rintro ⟨⟨r, hr, c, hc, hv, hd⟩, ⟨r', hr', c', hc', hv', hd'⟩⟩
+    constructor
+    · cases hx : a.disp r c with
+      | nan => rw [hx] at hd; simp at hd
+      | num v => rw [hx] at hd; exact ⟨r, c, v, hr, hc, hv, hx, by simpa using hd⟩
+    · cases hx : a.disp r' c' with
+      | nan => rw [hx] at hd'; simp at hd'
+      | num v => rw [hx] at hd'; exact ⟨r', c', v, hr', hc', hv', hx, by simpa using hd'⟩
+  · rintro ⟨⟨r, c, v, hr, hc, hv, hd, hle⟩, ⟨r', c', v', hr', hc', hv', hd', hle'⟩⟩
+    exact ⟨⟨r, hr, c, hc, hv, by rw [hd]; simpa using hle⟩, ⟨r', hr', c', hc', hv', by rw [hd']; simpa using hle'⟩⟩
+
+theorem Bdd.self {a : DMap} {r c : Nat} {q : Rat} (hr : r < a.rows) (hc : c < a.cols)
+    (hv : a.valid r c = true) (hd : a.disp r c = .num q) : Bdd a q :=
+  ⟨⟨r, c, q, hr, hc, hv, hd, le_refl _⟩, ⟨r, c, q, hr, hc, hv, hd, le_refl _⟩⟩
+
+theorem Bdd.between {a : DMap} {x y q : Rat} (hx : Bdd a x) (hy : Bdd a y) (h1 : x ≤ q) (h2 : q ≤ y) : Bdd a q := by
+  obtain ⟨⟨r, c, v, hr, hc, hv, hd, hle⟩, _⟩ := hx
+  obtain ⟨_, ⟨r', c', v', hr', hc', hv', hd', hle'⟩⟩ := hy
+  exact ⟨⟨r, c, v, hr, hc, hv, hd, le_trans hle h1⟩, ⟨r', c', v', hr', hc', hv', hd', le_trans h2 hle'⟩⟩
+
+/-- the median of bounded numbers is bounded -/
+theorem Bdd.median {a : DMap} {l : List Rat} (hl : ∀ x ∈ l, Bdd a x) {q : Rat} (h : median l = .num q) : Bdd a q := by
+  obtain ⟨x, hx, y, hy, h1, h2⟩ := median_between h
+  exact Bdd.between (hl x hx) (hl y hy) h1 h2
+
+/-! ### 4. The four kernels, one pixel, in terms of the specification's notions -/
+
+theorem hasBit_occlusion (f : Nat) : hasBit f occlusion = f.testBit 8 := by rw [occlusion_pow, hasBit_two_pow]
+theorem hasBit_mismatch (f : Nat) : hasBit f mismatch = f.testBit 9 := by rw [mismatch_pow, hasBit_two_pow]
+
+theorem not_valid_of_bit8 {m : DMap} {r c : Nat} (h : (m.flag r c).testBit 8 = true) : m.valid r c = false := by
+  unfold DMap.valid; apply not_valid_of_flagged; rw [flagged_eq, h]; rfl
+
+theorem not_valid_of_bit9 {m : DMap} {r c : Nat} (h : (m.flag r c).testBit 9 = true) : m.valid r c = false := by
+  unfold DMap.valid; apply not_valid_of_flagged; rw [flagged_eq, h]; simp
+
+theorem occlMc_unflagged (m : DMap) (r c : Nat) (h : (m.flag r c).testBit 8 = false) :
+    (occlMc m).disp r c = m.disp r c ∧ (occlMc m).flag r c = m.flag r c := by
+  have : ((m.flag r c &&& occlusion) != 0) = false := by
+    have := hasBit_occlusion (m.flag r c); unfold hasBit at this; rw [this, h]
+  simp only [occlMc, occlMcPixel, this, Bool.false_eq_true, if_false, and_self]
+
+theorem occlMc_flagged (m : DMap) (r c : Nat) (hc : c < m.cols) (h : (m.flag r c).testBit 8 = true) :
+    (∀ v, sourceOcclMc m r c = some v →
+        (occlMc m).disp r c = v ∧ (occlMc m).flag r c = m.flag r c - occlusion + filledOcclusion) ∧
+    (sourceOcclMc m r c = none → (occlMc m).disp r c = m.disp r c ∧ (occlMc m).flag r c = m.flag r c) := by
+  have h8 : ((m.flag r c &&& occlusion) != 0) = true := by
+    have := hasBit_occlusion (m.flag r c); unfold hasBit at this; rw [this, h]
+  have := occlMcPixel_eq m r c hc h8 (not_valid_of_bit8 h)
+  simp only [occlMc]
+  constructor
+  · intro v hv; rw [hv] at this; rw [this]; exact ⟨rfl, rfl⟩
+  · intro hn; rw [hn] at this; rw [this]; exact ⟨rfl, rfl⟩
+
+theorem mismMc_unflagged (m : DMap) (r c : Nat) (h : (m.flag r c).testBit 9 = false) :
+    (mismMc m).disp r c = m.disp r c ∧ (mismMc m).flag r c = m.flag r c := by
+  have : ((m.flag r c &&& mismatch) != 0) = false := by
+    have := hasBit_mismatch (m.flag r c); unfold hasBit at this; rw [this, h]
+  simp only [mismMc, mismMcPixel, this, Bool.false_eq_true, if_false, and_self]
+
+theorem mismMc_flag (m : DMap) (r c : Nat) (h : (m.flag r c).testBit 9 = true) :
+    (mismMc m).flag r c = m.flag r c - mismatch + filledMismatch := by
+  have : ((m.flag r c &&& mismatch) != 0) = true := by
+    have := hasBit_mismatch (m.flag r c); unfold hasBit at this; rw [this, h]
+  simp only [mismMc, mismMcPixel, this, if_true]
+
+/-- mc-cnn mismatch, when no scan line runs to its end inside the image: the median of the first valid
+    pixels on the 16 rays -/
+theorem mismMc_disp (m : DMap) (r c : Nat) (hc : c < m.cols) (h : (m.flag r c).testBit 9 = true)
+    (hno : anyRunOff m r c = false) : (mismMc m).disp r c = median (nums (sourcesMc m r c)) := by
+  have h9 : ((m.flag r c &&& mismatch) != 0) = true := by
+    have := hasBit_mismatch (m.flag r c); unfold hasBit at this; rw [this, h]
+  simp only [mismMc, mismMcPixel, h9, if_true, nanmedian]
+  congr 1
+  unfold sourcesMc
+  rw [← nums_map_getD]
+  congr 1
+  apply List.map_congr_left
+  intro d hd
+  rw [scanMc_eq m r c hc d]
+  have : runOff m r c d = false := by
+    unfold anyRunOff at hno
+    rw [List.any_eq_false] at hno
+    simpa using hno d hd
+  simp [this]
+
+
+/-! ### 5. From "what happened to the pixel" to the nine clauses -/
+
+/-- what happened to pixel `(r, c)` between the map `a` before and the map `b` after filling -/
+inductive Outcome (meth : Method) (off : Nat) (a b : DMap) (r c : Nat) : Prop
+  | untouched (hf : flagged (a.flag r c) = false) (hd : b.disp r c = a.disp r c) (hg : b.flag r c = a.flag r c)
+      (hb : (decide (off > 0) && isBorder a off r c) = true → a.flag r c = leftNodataOrBorder)
+  | unfilled (hf : flagged (a.flag r c) = true) (hb : (decide (off > 0) && isBorder a off r c) = false)
+      (hs : sourcesOf meth a b r c = []) (hm : meth = .mccnn) (hk : kindOf meth a r c = .occl)
+      (hg : b.flag r c = a.flag r c)
+  | filled (hf : flagged (a.flag r c) = true) (hb : (decide (off > 0) && isBorder a off r c) = false)
+      (hg : b.flag r c = filledFlag (kindOf meth a r c) (a.flag r c)) (hng : flagged (b.flag r c) = false)
+      (q : Rat) (hd : b.disp r c = .num q)
+      (hv : valueOK meth (kindOf meth a r c) (sourcesOf meth a b r c) (.num q) = true)
+      (hbd : betweenValid a q = true)
+      (he : enoughSources meth (kindOf meth a r c) (sourcesOf meth a b r c).length = true)
+
+theorem isInvalid_of_flagged {f : Nat} (h : flagged f = true) : isInvalid f = true := by
+  have := not_valid_of_flagged h
+  unfold isInvalid; simpa using this
+
+theorem enoughSources_pos {meth : Method} {k : Kind} {n : Nat} (h : enoughSources meth k n = true) : 1 ≤ n := by
+  cases meth <;> cases k <;> simp [enoughSources] at h <;> omega
+
+theorem pixelOK_of_outcome {meth : Method} {off : Nat} {a b : DMap} {r c : Nat}
+    (h : Outcome meth off a b r c) : pixelOK meth off a b r c = true := by
+  unfold pixelOK clausesAt
+  simp only [List.all_cons, List.all_nil, Bool.and_true, Bool.and_eq_true]
+  cases h with
+  | untouched hf hd hg hb =>
+    have hbits : hasBit (a.flag r c) mismatch = false := by
+      unfold flagged at hf; simp only [Bool.or_eq_false_iff] at hf; exact hf.2
+    refine ⟨?_, ?_, ?_, ?_, ?_, ?_, ?_, ?_, ?_⟩ <;>
+      simp only [Clause.ok, cUnflagged, cFilledBits, cFilledFinite, cFilledFromValid, cFilledBetween, cNoSource,
+        cFilledWhenSource, cSgmMismatch, cBorder, viewAt, View.filled, hf, hd, hg, hbits] <;> simp
+    by_cases hbo : (decide (off > 0) && isBorder a off r c) = true
+    · exact Or.inr (hb hbo)
+    · left; simp at hbo; by_cases h0 : off = 0
+      · exact Or.inl h0
+      · exact Or.inr (hbo (Nat.pos_of_ne_zero h0))
+  | unfilled hf hb hs hm hk hg =>
+    subst hm
+    refine ⟨?_, ?_, ?_, ?_, ?_, ?_, ?_, ?_, ?_⟩ <;>
+      simp only [Clause.ok, cUnflagged, cFilledBits, cFilledFinite, cFilledFromValid, cFilledBetween, cNoSource,
+        cFilledWhenSource, cSgmMismatch, cBorder, viewAt, View.filled, hf, hg, hb, hs, hk, unfilledFlag,
+        enoughSources, isInvalid_of_flagged hf] <;> simp
+  | filled hf hb hg hng q hd hv hbd he =>
+    have hne : (sourcesOf meth a b r c).isEmpty = false := by
+      have := enoughSources_pos he
+      cases hs : sourcesOf meth a b r c with
+      | nil => rw [hs] at this; simp at this
+      | cons x t => rfl
+    refine ⟨?_, ?_, ?_, ?_, ?_, ?_, ?_, ?_, ?_⟩
+    · simp [Clause.ok, cUnflagged, viewAt, hf]
+    · simp [Clause.ok, cFilledBits, viewAt, hg]
+    · simp [Clause.ok, cFilledFinite, viewAt, hd, Val.isNum, Val.isNan]
+    · simp only [Clause.ok, cFilledFromValid, viewAt, hd, hv]; simp
+    · simp only [Clause.ok, cFilledBetween, viewAt, hd, Val.get, hbd]; simp
+    · simp [Clause.ok, cNoSource, viewAt, hne]
+    · simp [Clause.ok, cFilledWhenSource, viewAt, hng]
+    · simp only [Clause.ok, cSgmMismatch, viewAt, hb, hg]
+      cases meth with
+      | mccnn => simp
+      | sgm =>
+        by_cases h9 : hasBit (a.flag r c) mismatch = true
+        · by_cases h8 : hasBit (a.flag r c) occlusion = true
+          · simp [h8]
+          · simp only [Bool.not_eq_true] at h8
+            by_cases ht : touchesOcclusion a r c = true
+            · simp [kindOf, h8, h9, ht, filledFlag]
+            · simp only [Bool.not_eq_true] at ht
+              simp [kindOf, h8, h9, ht, filledFlag]
+        · simp only [Bool.not_eq_true] at h9
+          simp [h9]
+    · simp [Clause.ok, cBorder, viewAt, hb]
+
+
+/-! ### 6. mc-cnn -/
+
+theorem one_testBit8 : (leftNodataOrBorder).testBit 8 = false := by decide
+theorem one_testBit9 : (leftNodataOrBorder).testBit 9 = false := by decide
+
+section mccnn
+variable {off : Nat} {a : DMap}
+
+theorem mccnn_disp (off : Nat) (a : DMap) (r c : Nat) : (mccnn off a).disp r c = (mismMc (occlMc a)).disp r c := rfl
+
+theorem mccnn_flag (off : Nat) (a : DMap) (r c : Nat) :
+    (mccnn off a).flag r c =
+      if (decide (off > 0) && isBorder a off r c) = true then leftNodataOrBorder else (mismMc (occlMc a)).flag r c := rfl
+
+theorem not_border_of_bit {k : Nat} (hwf : WFp .mccnn off a) {r c : Nat} (hr : r < a.rows) (hc : c < a.cols)
+    (h1 : (leftNodataOrBorder).testBit k = false) (hk : (a.flag r c).testBit k = true) :
+    (decide (off > 0) && isBorder a off r c) = false := by
+  cases hb : (decide (off > 0) && isBorder a off r c)
+  · rfl
+  · have := hwf.bc r c hr hc hb; rw [this, h1] at hk; cases hk
+
+/-- an occlusion pixel of the input: what the first pass produced is final -/
+theorem mccnn_at_occl (hwf : WFp .mccnn off a) {r c : Nat} (hr : r < a.rows) (hc : c < a.cols)
+    (h8 : (a.flag r c).testBit 8 = true) :
+    (mccnn off a).disp r c = (occlMc a).disp r c ∧ (mccnn off a).flag r c = (occlMc a).flag r c := by
+  have h9 : (a.flag r c).testBit 9 = false := hwf.one r c hr hc h8
+  have h4 : (a.flag r c).testBit 4 = false := hwf.st8 r c hr hc h8
+  have hnb := not_border_of_bit hwf hr hc one_testBit8 h8
+  have hm1 : ((occlMc a).flag r c).testBit 9 = false := by
+    obtain ⟨hs, hn⟩ := occlMc_flagged a r c hc h8
+    cases hsrc : sourceOcclMc a r c with
+    | none => rw [(hn hsrc).2]; exact h9
+    | some v =>
+      rw [(hs v hsrc).2, fill_occl h8 h4, occlusion_pow, filledOcclusion_pow, testBit_replaceBit]; simp [h9]
+  have := mismMc_unflagged (occlMc a) r c hm1
+  rw [mccnn_disp, mccnn_flag, hnb]
+  exact ⟨this.1, by simpa using this.2⟩
+
+/-- the map between the two passes, as the specification reads it off input and output, is the map
+    the first pass produced -/
+theorem midOf_mccnn_agree (hwf : WFp .mccnn off a) : Agree (midOf .mccnn a (mccnn off a)) (occlMc a) := by
+  refine ⟨rfl, rfl, ?_, ?_⟩
+  · intro r c hr hc
+    simp only [midOf, hasBit_occlusion]
+    by_cases h8 : (a.flag r c).testBit 8 = true
+    · simp [h8, (mccnn_at_occl hwf hr hc h8).1]
+    · simp only [Bool.not_eq_true] at h8
+      simp [h8, (occlMc_unflagged a r c h8).1]
+  · intro r c hr hc
+    simp only [midOf, hasBit_occlusion]
+    by_cases h8 : (a.flag r c).testBit 8 = true
+    · simp [h8, (mccnn_at_occl hwf hr hc h8).2]
+    · simp only [Bool.not_eq_true] at h8
+      simp [h8, (occlMc_unflagged a r c h8).2]
+
+/-- a valid pixel of the map after occlusion filling carries a disparity between two valid disparities
+    of the input -/
+theorem occlMc_valid_bdd {r c : Nat} (hr : r < a.rows) (hc : c < a.cols)
+    (hv : (occlMc a).valid r c = true) {q : Rat} (hd : (occlMc a).disp r c = .num q) : Bdd a q := by
+  by_cases h8 : (a.flag r c).testBit 8 = true
+  · obtain ⟨hs, hn⟩ := occlMc_flagged a r c hc h8
+    cases hsrc : sourceOcclMc a r c with
+    | none =>
+      exfalso
+      have : (occlMc a).valid r c = false := by
+        apply not_valid_of_bit8; rw [(hn hsrc).2]; exact h8
+      rw [this] at hv; cases hv
+    | some v =>
+      obtain ⟨j, hj, hvj, hdj⟩ := sourceOcclMc_pixel hc hsrc
+      rw [(hs v hsrc).1] at hd
+      exact Bdd.self hr hj hvj (hdj.trans hd)
+  · simp only [Bool.not_eq_true] at h8
+    have := occlMc_unflagged a r c h8
+    unfold DMap.valid at hv
+    rw [this.2] at hv; rw [this.1] at hd
+    exact Bdd.self hr hc hv hd
+
+theorem mc_sources_bdd (r c : Nat) : ∀ q ∈ nums (sourcesMc (occlMc a) r c), Bdd a q := by
+  intro q hq
+  rw [mem_nums] at hq
+  unfold sourcesMc at hq
+  rw [List.mem_filterMap] at hq
+  obtain ⟨d, _, hd⟩ := hq
+  obtain ⟨r', c', hr', hc', hv, hdisp⟩ := ray_source_pixel hd
+  exact occlMc_valid_bdd (a := a) hr' hc' hv hdisp
+
+theorem mccnn_outcome (hwf : WFp .mccnn off a) {r c : Nat} (hr : r < a.rows) (hc : c < a.cols)
+    (hok : okAt .mccnn a (occlMc a) r c = true) : Outcome .mccnn off a (mccnn off a) r c := by
+  by_cases h8 : (a.flag r c).testBit 8 = true
+  · -- occlusion
+    have h9 : (a.flag r c).testBit 9 = false := hwf.one r c hr hc h8
+    have h4 : (a.flag r c).testBit 4 = false := hwf.st8 r c hr hc h8
+    have hnb := not_border_of_bit hwf hr hc one_testBit8 h8
+    have hfl : flagged (a.flag r c) = true := by rw [flagged_eq, h8]; rfl
+    have hk : kindOf .mccnn a r c = .occl := by simp [kindOf, hasBit_occlusion, h8]
+    obtain ⟨hb1, hb2⟩ := mccnn_at_occl hwf hr hc h8
+    obtain ⟨hs, hn⟩ := occlMc_flagged a r c hc h8
+    cases hsrc : sourceOcclMc a r c with
+    | none =>
+      refine Outcome.unfilled hfl hnb ?_ rfl hk (by rw [hb2, (hn hsrc).2])
+      simp [sourcesOf, hk, hsrc, nums]
+    | some v =>
+      obtain ⟨j, hj, hvj, hdj⟩ := sourceOcclMc_pixel hc hsrc
+      obtain ⟨q, hq⟩ := hwf.vf r j hr hj hvj
+      have hvq : v = .num q := hdj.symm.trans hq
+      have hg : (mccnn off a).flag r c = replaceBit (a.flag r c) occlusion filledOcclusion := by
+        rw [hb2, (hs v hsrc).2, fill_occl h8 h4]
+      have hsrcs : sourcesOf .mccnn a (mccnn off a) r c = [q] := by
+        simp [sourcesOf, hk, hsrc, hvq, nums]
+      refine Outcome.filled hfl hnb (by rw [hk]; exact hg) ?_ q (by rw [hb1, (hs v hsrc).1, hvq]) ?_ ?_ ?_
+      · rw [hg, flagged_eq, occlusion_pow, filledOcclusion_pow, testBit_replaceBit, testBit_replaceBit]; simp [h9]
+      · rw [hk, hsrcs]; simp [valueOK]
+      · rw [betweenValid_iff]; exact Bdd.self hr hj hvj hq
+      · rw [hk, hsrcs]; simp [enoughSources]
+  · simp only [Bool.not_eq_true] at h8
+    obtain ⟨ho1, ho2⟩ := occlMc_unflagged a r c h8
+    by_cases h9 : (a.flag r c).testBit 9 = true
+    · -- mismatch
+      have h5 : (a.flag r c).testBit 5 = false := hwf.st9 r c hr hc h9
+      have hnb := not_border_of_bit hwf hr hc one_testBit9 h9
+      have hfl : flagged (a.flag r c) = true := by rw [flagged_eq, h9]; simp
+      have hk : kindOf .mccnn a r c = .mism := by simp [kindOf, hasBit_occlusion, hasBit_mismatch, h8, h9]
+      have h9' : ((occlMc a).flag r c).testBit 9 = true := by rw [ho2]; exact h9
+      simp only [okAt, hk, Bool.and_eq_true, Bool.not_eq_true'] at hok
+      have hg : (mccnn off a).flag r c = replaceBit (a.flag r c) mismatch filledMismatch := by
+        rw [mccnn_flag, hnb]; simp only [Bool.false_eq_true, if_false]
+        rw [mismMc_flag _ r c h9', ho2, fill_mism h9 h5]
+      have hsrcs : sourcesOf .mccnn a (mccnn off a) r c = nums (sourcesMc (occlMc a) r c) := by
+        simp only [sourcesOf, hk]
+        rw [sourcesMc_congr (midOf_mccnn_agree hwf)]
+      have hd : (mccnn off a).disp r c = median (nums (sourcesMc (occlMc a) r c)) := by
+        rw [mccnn_disp]; exact mismMc_disp _ r c hc h9' hok.1
+      have hne : nums (sourcesMc (occlMc a) r c) ≠ [] := by
+        intro h0; rw [h0] at hok; simp at hok
+      cases hmed : median (nums (sourcesMc (occlMc a) r c)) with
+      | nan => exact absurd ((median_eq_nan_iff _).mp hmed) hne
+      | num q =>
+        refine Outcome.filled hfl hnb (by rw [hk]; exact hg) ?_ q (by rw [hd, hmed]) ?_ ?_ ?_
+        · rw [hg, flagged_eq, mismatch_pow, filledMismatch_pow, testBit_replaceBit, testBit_replaceBit]; simp [h8]
+        · rw [hk, hsrcs]; simp [valueOK, hmed]
+        · rw [betweenValid_iff]; exact Bdd.median (mc_sources_bdd r c) hmed
+        · rw [hk, hsrcs]; simp only [enoughSources, decide_eq_true_eq]
+          cases hl : nums (sourcesMc (occlMc a) r c) with
+          | nil => exact absurd hl hne
+          | cons x t => simp
+    · -- neither bit
+      simp only [Bool.not_eq_true] at h9
+      have hfl : flagged (a.flag r c) = false := by rw [flagged_eq, h8, h9]; rfl
+      have h9' : ((occlMc a).flag r c).testBit 9 = false := by rw [ho2]; exact h9
+      obtain ⟨hm1, hm2⟩ := mismMc_unflagged (occlMc a) r c h9'
+      refine Outcome.untouched hfl (by rw [mccnn_disp, hm1, ho1]) ?_ (hwf.bc r c hr hc)
+      rw [mccnn_flag]
+      by_cases hb : (decide (off > 0) && isBorder a off r c) = true
+      · rw [if_pos hb, hwf.bc r c hr hc hb]
+      · rw [if_neg hb, hm2, ho2]
+
+end mccnn
+
+
+/-! ### 7. sgm -/
+
+section sgm
+variable {off : Nat} {a : DMap}
+
+theorem mismSgm_unflagged (m : DMap) (r c : Nat) (h : (m.flag r c).testBit 9 = false) :
+    (mismSgm m).disp r c = m.disp r c ∧ (mismSgm m).flag r c = m.flag r c := by
+  have : ((m.flag r c &&& mismatch) != 0) = false := by
+    have := hasBit_mismatch (m.flag r c); unfold hasBit at this; rw [this, h]
+  simp only [mismSgm, mismSgmPixel, this, Bool.false_eq_true, if_false, and_self]
+
+theorem mismSgm_touch (m : DMap) (r c : Nat) (hr : r < m.rows) (hc : c < m.cols) (h : (m.flag r c).testBit 9 = true)
+    (ht : touchesOcclusion m r c = true) :
+    (mismSgm m).disp r c = m.disp r c ∧ (mismSgm m).flag r c = m.flag r c - mismatch + occlusion := by
+  have h9 : ((m.flag r c &&& mismatch) != 0) = true := by
+    have := hasBit_mismatch (m.flag r c); unfold hasBit at this; rw [this, h]
+  have h3 := occlusionSum3x3_ne_zero m r c hr hc
+  rw [ht] at h3
+  simp only [mismSgm, mismSgmPixel, h9, h3, if_true, and_self]
+
+theorem mismSgm_fill (m : DMap) (r c : Nat) (hr : r < m.rows) (hc : c < m.cols) (h : (m.flag r c).testBit 9 = true)
+    (ht : touchesOcclusion m r c = false) :
+    (mismSgm m).disp r c = median (nums (sourcesSgm m r c))
+    ∧ (mismSgm m).flag r c = m.flag r c - mismatch + filledMismatch := by
+  have h9 : ((m.flag r c &&& mismatch) != 0) = true := by
+    have := hasBit_mismatch (m.flag r c); unfold hasBit at this; rw [this, h]
+  have h3 := occlusionSum3x3_ne_zero m r c hr hc
+  rw [ht] at h3
+  simp only [mismSgm, mismSgmPixel, h9, h3, if_true, Bool.false_eq_true, if_false, and_true, nanmedian]
+  rw [findValidNeighbors_eq m r c hr hc, nums_map_getD]
+  rfl
+
+theorem occlSgm_unflagged (m : DMap) (r c : Nat) (h : (m.flag r c).testBit 8 = false) :
+    (occlSgm m).disp r c = m.disp r c ∧ (occlSgm m).flag r c = m.flag r c := by
+  have : ((m.flag r c &&& occlusion) != 0) = false := by
+    have := hasBit_occlusion (m.flag r c); unfold hasBit at this; rw [this, h]
+  simp only [occlSgm, occlSgmPixel, this, Bool.false_eq_true, if_false, and_self]
+
+/-- sgm occlusion with at least two finite sources: a finite entry of second-lowest absolute value -/
+theorem occlSgm_flagged (m : DMap) (r c : Nat) (hr : r < m.rows) (hc : c < m.cols) (h : (m.flag r c).testBit 8 = true)
+    (h2 : 2 ≤ (nums (sourcesSgm m r c)).length) :
+    (∃ q, (occlSgm m).disp r c = .num q ∧ isSecondLowestAbs (nums (sourcesSgm m r c)) q = true)
+    ∧ (occlSgm m).flag r c = m.flag r c - occlusion + filledOcclusion := by
+  have h8 : ((m.flag r c &&& occlusion) != 0) = true := by
+    have := hasBit_occlusion (m.flag r c); unfold hasBit at this; rw [this, h]
+  have hn : nums (findValidNeighbors m r c) = nums (sourcesSgm m r c) := by
+    rw [findValidNeighbors_eq m r c hr hc, nums_map_getD]; rfl
+  simp only [occlSgm, occlSgmPixel, h8, if_true, and_true]
+  rw [← hn] at h2 ⊢
+  exact secondLowestAbs_spec _ h2
+
+theorem occlSgm_flag (m : DMap) (r c : Nat) (h : (m.flag r c).testBit 8 = true) :
+    (occlSgm m).flag r c = m.flag r c - occlusion + filledOcclusion := by
+  have h8 : ((m.flag r c &&& occlusion) != 0) = true := by
+    have := hasBit_occlusion (m.flag r c); unfold hasBit at this; rw [this, h]
+  simp only [occlSgm, occlSgmPixel, h8, if_true]
+
+theorem bit8_false_of_bit9 (hwf : WFp .sgm off a) {r c : Nat} (hr : r < a.rows) (hc : c < a.cols)
+    (h9 : (a.flag r c).testBit 9 = true) : (a.flag r c).testBit 8 = false := by
+  cases h8 : (a.flag r c).testBit 8
+  · rfl
+  · have := hwf.one r c hr hc h8; rw [this] at h9; cases h9
+
+/-- a mismatch not touching an occlusion: what the first pass produced is final -/
+theorem sgm_at_mism (hwf : WFp .sgm off a) {r c : Nat} (hr : r < a.rows) (hc : c < a.cols)
+    (h9 : (a.flag r c).testBit 9 = true) (ht : touchesOcclusion a r c = false) :
+    (sgm a).disp r c = (mismSgm a).disp r c ∧ (sgm a).flag r c = (mismSgm a).flag r c := by
+  have h8 := bit8_false_of_bit9 hwf hr hc h9
+  have h5 := hwf.st9 r c hr hc h9
+  have : ((mismSgm a).flag r c).testBit 8 = false := by
+    rw [(mismSgm_fill a r c hr hc h9 ht).2, fill_mism h9 h5, mismatch_pow, filledMismatch_pow, testBit_replaceBit]
+    simp [h8]
+  exact occlSgm_unflagged (mismSgm a) r c this
+
+theorem kindOf_sgm_mism {r c : Nat} (h8 : (a.flag r c).testBit 8 = false) (h9 : (a.flag r c).testBit 9 = true) :
+    kindOf .sgm a r c = if touchesOcclusion a r c then .mismAsOccl else .mism := by
+  simp [kindOf, hasBit_occlusion, hasBit_mismatch, h8, h9]
+
+theorem midOf_sgm_agree (hwf : WFp .sgm off a) : Agree (midOf .sgm a (sgm a)) (mismSgm a) := by
+  refine ⟨rfl, rfl, ?_, ?_⟩
+  · intro r c hr hc
+    by_cases h9 : (a.flag r c).testBit 9 = true
+    · have h8 := bit8_false_of_bit9 hwf hr hc h9
+      cases ht : touchesOcclusion a r c
+      · have hk : kindOf .sgm a r c = .mism := by rw [kindOf_sgm_mism h8 h9, ht]; rfl
+        simp only [midOf, hk, if_true]
+        exact (sgm_at_mism hwf hr hc h9 ht).1
+      · have hk : kindOf .sgm a r c = .mismAsOccl := by rw [kindOf_sgm_mism h8 h9, ht]; rfl
+        simp only [midOf, hk]
+        rw [(mismSgm_touch a r c hr hc h9 ht).1]; simp
+    · simp only [Bool.not_eq_true] at h9
+      have hk : kindOf .sgm a r c ≠ .mism := by
+        simp only [kindOf, hasBit_occlusion, hasBit_mismatch, h9]
+        cases (a.flag r c).testBit 8 <;> simp
+      simp only [midOf, hk, if_false]
+      exact (mismSgm_unflagged a r c h9).1.symm
+  · intro r c hr hc
+    by_cases h9 : (a.flag r c).testBit 9 = true
+    · have h8 := bit8_false_of_bit9 hwf hr hc h9
+      cases ht : touchesOcclusion a r c
+      · have hk : kindOf .sgm a r c = .mism := by rw [kindOf_sgm_mism h8 h9, ht]; rfl
+        simp only [midOf, hk]
+        exact (sgm_at_mism hwf hr hc h9 ht).2
+      · have hk : kindOf .sgm a r c = .mismAsOccl := by rw [kindOf_sgm_mism h8 h9, ht]; rfl
+        simp only [midOf, hk]
+        rw [(mismSgm_touch a r c hr hc h9 ht).2, mism_to_occl h9 h8]
+    · simp only [Bool.not_eq_true] at h9
+      have := (mismSgm_unflagged a r c h9).2
+      simp only [midOf, kindOf, hasBit_occlusion, hasBit_mismatch, h9]
+      cases (a.flag r c).testBit 8 <;> simp [this]
+
+theorem sgm_input_sources_bdd (r c : Nat) : ∀ q ∈ nums (sourcesSgm a r c), Bdd a q := by
+  intro q hq
+  rw [mem_nums] at hq
+  unfold sourcesSgm at hq
+  rw [List.mem_filterMap] at hq
+  obtain ⟨d, _, hd⟩ := hq
+  obtain ⟨r', c', hr', hc', hv, hdisp⟩ := ray_source_pixel hd
+  exact Bdd.self hr' hc' hv hdisp
+
+/-- a valid pixel of the map after the mismatch pass carries a disparity between two valid disparities
+    of the input -/
+theorem mismSgm_valid_bdd (hwf : WFp .sgm off a) {r c : Nat} (hr : r < a.rows) (hc : c < a.cols)
+    (hv : (mismSgm a).valid r c = true) {q : Rat} (hd : (mismSgm a).disp r c = .num q) : Bdd a q := by
+  by_cases h9 : (a.flag r c).testBit 9 = true
+  · have h8 := bit8_false_of_bit9 hwf hr hc h9
+    cases ht : touchesOcclusion a r c
+    · rw [(mismSgm_fill a r c hr hc h9 ht).1] at hd
+      exact Bdd.median (sgm_input_sources_bdd r c) hd
+    · exfalso
+      have : (mismSgm a).valid r c = false := by
+        apply not_valid_of_bit8
+        rw [(mismSgm_touch a r c hr hc h9 ht).2, mism_to_occl h9 h8, mismatch_pow, occlusion_pow, testBit_replaceBit]
+        simp
+      rw [this] at hv; cases hv
+  · simp only [Bool.not_eq_true] at h9
+    have := mismSgm_unflagged a r c h9
+    unfold DMap.valid at hv
+    rw [this.2] at hv; rw [this.1] at hd
+    exact Bdd.self hr hc hv hd
+
+theorem sgm_sources_bdd (hwf : WFp .sgm off a) (r c : Nat) : ∀ q ∈ nums (sourcesSgm (mismSgm a) r c), Bdd a q := by
+  intro q hq
+  rw [mem_nums] at hq
+  unfold sourcesSgm at hq
+  rw [List.mem_filterMap] at hq
+  obtain ⟨d, _, hd⟩ := hq
+  obtain ⟨r', c', hr', hc', hv, hdisp⟩ := ray_source_pixel hd
+  exact mismSgm_valid_bdd hwf hr' hc' hv hdisp
+
+theorem isSecondLowestAbs_mem {l : List Rat} {q : Rat} (h : isSecondLowestAbs l q = true) : q ∈ l := by
+  unfold isSecondLowestAbs at h
+  simp only [Bool.and_eq_true] at h
+  exact List.contains_iff_mem.mp h.1.1
+
+/-- a pixel handled as an occlusion by sgm (bit 8 after the first pass), with two sources -/
+theorem sgm_occl_core (hwf : WFp .sgm off a) {r c : Nat} (hr : r < a.rows) (hc : c < a.cols)
+    (h8 : ((mismSgm a).flag r c).testBit 8 = true) (h2 : 2 ≤ (nums (sourcesSgm (mismSgm a) r c)).length) :
+    ∃ q, (sgm a).disp r c = .num q ∧ isSecondLowestAbs (nums (sourcesSgm (mismSgm a) r c)) q = true
+      ∧ betweenValid a q = true := by
+  obtain ⟨⟨q, hq, hs⟩, _⟩ := occlSgm_flagged (mismSgm a) r c hr hc h8 h2
+  refine ⟨q, hq, hs, ?_⟩
+  rw [betweenValid_iff]
+  exact sgm_sources_bdd hwf r c q (isSecondLowestAbs_mem hs)
+
+theorem sgm_outcome (hwf : WFp .sgm off a) {r c : Nat} (hr : r < a.rows) (hc : c < a.cols)
+    (hok : okAt .sgm a (mismSgm a) r c = true) : Outcome .sgm off a (sgm a) r c := by
+  have hborder : ∀ k, (leftNodataOrBorder).testBit k = false → (a.flag r c).testBit k = true →
+      (decide (off > 0) && isBorder a off r c) = false := by
+    intro k h1 hk
+    cases hb : (decide (off > 0) && isBorder a off r c)
+    · rfl
+    · have := hwf.bc r c hr hc hb; rw [this, h1] at hk; cases hk
+  by_cases h8 : (a.flag r c).testBit 8 = true
+  · -- occlusion
+    have h9 : (a.flag r c).testBit 9 = false := hwf.one r c hr hc h8
+    have h4 : (a.flag r c).testBit 4 = false := hwf.st8 r c hr hc h8
+    have hnb := hborder 8 one_testBit8 h8
+    have hfl : flagged (a.flag r c) = true := by rw [flagged_eq, h8]; rfl
+    have hk : kindOf .sgm a r c = .occl := by simp [kindOf, hasBit_occlusion, h8]
+    obtain ⟨_, hm2⟩ := mismSgm_unflagged a r c h9
+    have h8' : ((mismSgm a).flag r c).testBit 8 = true := by rw [hm2]; exact h8
+    simp only [okAt, hk, decide_eq_true_eq] at hok
+    obtain ⟨q, hq, hs, hbd⟩ := sgm_occl_core hwf hr hc h8' hok
+    have hg : (sgm a).flag r c = replaceBit (a.flag r c) occlusion filledOcclusion := by
+      show (occlSgm (mismSgm a)).flag r c = _
+      rw [occlSgm_flag _ r c h8', hm2, fill_occl h8 h4]
+    have hsrcs : sourcesOf .sgm a (sgm a) r c = nums (sourcesSgm (mismSgm a) r c) := by
+      simp only [sourcesOf, hk]; rw [sourcesSgm_congr (midOf_sgm_agree hwf)]
+    refine Outcome.filled hfl hnb (by rw [hk]; exact hg) ?_ q hq ?_ hbd ?_
+    · rw [hg, flagged_eq, occlusion_pow, filledOcclusion_pow, testBit_replaceBit, testBit_replaceBit]; simp [h9]
+    · rw [hk, hsrcs]; simp [valueOK, hs]
+    · rw [hk, hsrcs]; simpa [enoughSources] using hok
+  · simp only [Bool.not_eq_true] at h8
+    by_cases h9 : (a.flag r c).testBit 9 = true
+    · have h5 : (a.flag r c).testBit 5 = false := hwf.st9 r c hr hc h9
+      have h4 : (a.flag r c).testBit 4 = false := hwf.st9s rfl r c hr hc h9
+      have hnb := hborder 9 one_testBit9 h9
+      have hfl : flagged (a.flag r c) = true := by rw [flagged_eq, h9]; simp
+      cases ht : touchesOcclusion a r c
+      · -- mismatch filled as a mismatch
+        have hk : kindOf .sgm a r c = .mism := by rw [kindOf_sgm_mism h8 h9, ht]; rfl
+        simp only [okAt, hk, Bool.not_eq_true'] at hok
+        obtain ⟨hb1, hb2⟩ := sgm_at_mism hwf hr hc h9 ht
+        obtain ⟨hm1, hm2⟩ := mismSgm_fill a r c hr hc h9 ht
+        have hg : (sgm a).flag r c = replaceBit (a.flag r c) mismatch filledMismatch := by
+          rw [hb2, hm2, fill_mism h9 h5]
+        have hsrcs : sourcesOf .sgm a (sgm a) r c = nums (sourcesSgm a r c) := by simp only [sourcesOf, hk]
+        have hne : nums (sourcesSgm a r c) ≠ [] := by intro h0; rw [h0] at hok; simp at hok
+        cases hmed : median (nums (sourcesSgm a r c)) with
+        | nan => exact absurd ((median_eq_nan_iff _).mp hmed) hne
+        | num q =>
+          refine Outcome.filled hfl hnb (by rw [hk]; exact hg) ?_ q (by rw [hb1, hm1, hmed]) ?_ ?_ ?_
+          · rw [hg, flagged_eq, mismatch_pow, filledMismatch_pow, testBit_replaceBit, testBit_replaceBit]; simp [h8]
+          · rw [hk, hsrcs]; simp [valueOK, hmed]
+          · rw [betweenValid_iff]; exact Bdd.median (sgm_input_sources_bdd r c) hmed
+          · rw [hk, hsrcs]; simp only [enoughSources, decide_eq_true_eq]
+            cases hl : nums (sourcesSgm a r c) with
+            | nil => exact absurd hl hne
+            | cons x t => simp
+      · -- mismatch touching an occlusion: handled as an occlusion
+        have hk : kindOf .sgm a r c = .mismAsOccl := by rw [kindOf_sgm_mism h8 h9, ht]; rfl
+        simp only [okAt, hk, decide_eq_true_eq] at hok
+        obtain ⟨_, hm2⟩ := mismSgm_touch a r c hr hc h9 ht
+        have hf1 : (mismSgm a).flag r c = replaceBit (a.flag r c) (2 ^ 9) (2 ^ 8) := by
+          rw [hm2, mism_to_occl h9 h8, mismatch_pow, occlusion_pow]
+        have h8' : ((mismSgm a).flag r c).testBit 8 = true := by rw [hf1, testBit_replaceBit]; simp
+        have h4' : ((mismSgm a).flag r c).testBit 4 = false := by rw [hf1, testBit_replaceBit]; simp [h4]
+        obtain ⟨q, hq, hs, hbd⟩ := sgm_occl_core hwf hr hc h8' hok
+        have hg : (sgm a).flag r c = replaceBit (a.flag r c) mismatch filledOcclusion := by
+          show (occlSgm (mismSgm a)).flag r c = _
+          rw [occlSgm_flag _ r c h8', fill_occl h8' h4', hf1, occlusion_pow, filledOcclusion_pow, mismatch_pow,
+            replaceBit_twice _ 9 8 4 h8 (by decide)]
+        have hsrcs : sourcesOf .sgm a (sgm a) r c = nums (sourcesSgm (mismSgm a) r c) := by
+          simp only [sourcesOf, hk]; rw [sourcesSgm_congr (midOf_sgm_agree hwf)]
+        refine Outcome.filled hfl hnb (by rw [hk]; exact hg) ?_ q hq ?_ hbd ?_
+        · rw [hg, flagged_eq, mismatch_pow, filledOcclusion_pow, testBit_replaceBit, testBit_replaceBit]; simp [h8]
+        · rw [hk, hsrcs]; simp [valueOK, hs]
+        · rw [hk, hsrcs]; simpa [enoughSources] using hok
+    · -- neither bit
+      simp only [Bool.not_eq_true] at h9
+      have hfl : flagged (a.flag r c) = false := by rw [flagged_eq, h8, h9]; rfl
+      obtain ⟨hm1, hm2⟩ := mismSgm_unflagged a r c h9
+      have h8' : ((mismSgm a).flag r c).testBit 8 = false := by rw [hm2]; exact h8
+      obtain ⟨ho1, ho2⟩ := occlSgm_unflagged (mismSgm a) r c h8'
+      exact Outcome.untouched hfl (by show (occlSgm (mismSgm a)).disp r c = _; rw [ho1, hm1])
+        (by show (occlSgm (mismSgm a)).flag r c = _; rw [ho2, hm2]) (hwf.bc r c hr hc)
+
+end sgm
 
 end Pandora.C14
